@@ -79,6 +79,9 @@ func (cs *C06Case) tag() string {
 	if cs.Kind == "extkill" {
 		return "external-kill"
 	}
+	if cs.Kind == "dry" {
+		return "dry-run"
+	}
 	return cs.Point
 }
 
